@@ -19,8 +19,15 @@ Mirrors, step for step,
   `def __init__(self, a=d, …): self.a = f(a); …`.
 
 The class table is data. The MRO of every class is an INPUT (C3 linearisation is
-trusted; the harness reads `cls.__mro__`). Attribute types and preparers are per
-attribute *name* (the generator keeps the annotation of a name fixed).
+trusted; the harness reads `cls.__mro__`). Attribute types are per attribute *name* (the
+generator keeps the annotation of a name fixed). Preparers are per CLASS: a class body may define
+`_prepare_<attr>` / `_prepare_<item>` methods (`ClassDef.preps` / `ClassDef.itemPreps`, a function id
+each); `build_attr_spec` captures what `getattr(spec_cls, "_prepare_<attr>")` shows at the moment the
+`Attr` is built (`AttrSpec.prep` / `AttrSpec.prepItem`), an inherited `Attr` that the subclass body does
+not mention is handed down as it is, and `__setattr__` prepares with the `Attr` of the INSTANCE's
+metadata (`prepareVal`). The model is a pure function of the class table: no class's metadata depends
+on which other classes exist or were used before (`Props.C09.bootstrapAll_prefix`,
+`Props.C09.construct_ignores_later_classes`).
 Events: `ctor c` (constructor body of class `c` entered), `set a` (`mutate_attr`
 entered for attribute `a` with a non-MISSING value), `post c` (`__post_init__`
 defined by `c` ran).
@@ -39,19 +46,40 @@ inductive Val
   | list (xs : List Int)
   deriving DecidableEq, Repr, Inhabited
 
-inductive Ty | int | str | any | dict   -- `dict`: `Dict[str, Any]` of the overflow attribute (no `Val` conforms)
-  deriving DecidableEq, Repr, Inhabited
+inductive Ty | int | str | any | dict | ints   -- `dict`: `Dict[str, Any]` of the overflow attribute (no `Val` conforms)
+  deriving DecidableEq, Repr, Inhabited        -- `ints`: `List[int]` (a collection attribute: items are prepared one by one)
 
 /-- `check_type(value, type)` for the scalar annotations of the grammar. -/
 def conforms : Ty → Val → Bool
   | .any, _ => true
   | .int, .int _ => true
   | .str, .str _ => true
+  | .ints, .list _ => true
   | _, _ => false
 
-/-- Preparers `_prepare_<a>` of the grammar: code 0 = none, 1 = `v % 100` on ints. -/
+/-- Preparer function `n` of the grammar on ints: id 0 = none; id `n+1` maps `i ≥ 100` to
+`i % 100 + 1000 * n` and is the identity below 100 (declared defaults are fixed points). -/
+def prepInt : Nat → Int → Int
+  | 0, i => i
+  | n + 1, i => if i ≥ 100 then i % 100 + 1000 * (n : Int) else i
+
+def prepTag : Nat → String
+  | 1 => "ma" | 2 => "mb" | 3 => "mc" | _ => "md"
+
+/-- Preparers `_prepare_<a>` of the grammar (function id `n`; 0 = no preparer): `prepInt n` on ints,
+`"mm" ↦ prepTag n` on strings, identity elsewhere. -/
 def applyPrep : Nat → Val → Val
-  | 1, .int n => .int (n % 100)
+  | 0, v => v
+  | n + 1, .int i => .int (prepInt (n + 1) i)
+  | n + 1, .str s => if s = "mm" then .str (prepTag (n + 1)) else .str s
+  | _, v => v
+
+/-- Collection preparation of a `List[int]` attribute: the incoming iterable is rebuilt item by item, each
+item through the item preparer `_prepare_<item>` (function id `n`); the empty string is an empty iterable. -/
+def applyItemPrep (ty : Ty) (n : Nat) (v : Val) : Val :=
+  match ty, v with
+  | .ints, .list xs => .list (xs.map (prepInt n))
+  | .ints, .str s => if s = "" then .list [] else .str s
   | _, v => v
 
 /-- `f` of a hand-written constructor `self.a = f(a)`: 0 = `a`, 1 = `a + 1`, 2 = `100`. -/
@@ -89,6 +117,8 @@ structure ClassDef where
   decls : List Decl
   hand : Option (List HandParam)    -- hand-written `__init__`
   post : Bool                       -- defines `__post_init__`
+  preps : List (Name × Nat) := []       -- `def _prepare_<attr>` in the body: attribute name ↦ function id
+  itemPreps : List (Name × Nat) := []   -- `def _prepare_<item>` in the body, keyed by the COLLECTION attribute's name
   deriving Repr, Inhabited
 
 structure AttrSpec where
@@ -96,6 +126,8 @@ structure AttrSpec where
   factory : Val          -- the factory's product; `missing` = no `default_factory`
   init : Bool
   owner : Cls
+  prep : Nat := 0        -- `Attr.prepare`: id of the `_prepare_<attr>` captured when the Attr was built (0 = None)
+  prepItem : Nat := 0    -- `Attr.prepare_item`
   deriving DecidableEq, Repr, Inhabited
 
 def AttrSpec.hasDefault (s : AttrSpec) : Bool := s.default != .missing || s.factory != .missing
@@ -118,7 +150,6 @@ structure ClsInfo where
 
 structure Env where
   tys : List (Name × Ty)
-  preps : List (Name × Nat)
   classes : List ClsInfo           -- definition order
   deriving Repr, Inhabited
 
@@ -148,7 +179,6 @@ def dictErase {β : Type} (d : List (Name × β)) (a : Name) : List (Name × β)
   | (k, w) :: r => if k = a then dictErase r a else (k, w) :: dictErase r a
 
 def Env.ty (env : Env) (a : Name) : Ty := (assoc env.tys a).getD .any
-def Env.prep (env : Env) (a : Name) : Nat := (assoc env.preps a).getD 0
 
 def findCls (cs : List ClsInfo) (c : Cls) : Option ClsInfo := cs.find? (fun i => i.cdef.name = c)
 def Env.info (env : Env) (c : Cls) : Option ClsInfo := findCls env.classes c
@@ -182,15 +212,34 @@ def Slot.lift : Slot → Val
 def bodyDict (cd : ClassDef) : List (Name × Slot) :=
   cd.decls.filterMap (fun d => d.body.map (fun s => (d.name, s)))
 
+/-- `getattr(k, "_prepare_<a>", MISSING)` over the DECLARED class bodies along an MRO: the function id of
+the first definition (0 = none). `sel` picks the attribute preparers or the item preparers. -/
+def prepAlong (cs : List ClsInfo) (sel : ClassDef → List (Name × Nat)) : List Cls → Name → Nat
+  | [], _ => 0
+  | k :: r, a => match (findCls cs k).bind (fun i => assoc (sel i.cdef) a) with
+    | some n => n
+    | none => prepAlong cs sel r a
+
+/-- `getattr(spec_cls, "_prepare_<a>", MISSING)` while `spec_cls = cd` is being bootstrapped (its own body
+first, then the classes of its MRO). -/
+def classPrep (cs : List ClsInfo) (cd : ClassDef) (sel : ClassDef → List (Name × Nat)) (a : Name) : Nat :=
+  match assoc (sel cd) a with
+  | some n => n
+  | none => prepAlong cs sel cd.mro.tail a
+
 /-- `build_attr_spec(spec_cls, attr, …, owner=owner)` : the value is looked up with
 `getattr(spec_cls, attr, MISSING)` (own body first, then the already bootstrapped
-parents along the MRO). -/
+parents along the MRO); the preparer and the item preparer are what `getattr(spec_cls, "_prepare_…")`
+shows NOW (later subclasses that define another `_prepare_…` do not change this Attr). -/
 def buildSpec (cs : List ClsInfo) (cd : ClassDef) (a : Name) (owner : Option Cls) : AttrSpec :=
+  let p := classPrep cs cd (·.preps) a
+  let q := classPrep cs cd (·.itemPreps) a
   match assoc (bodyDict cd) a with
-  | some (.attrObj d f i) => { default := d, factory := f, init := i, owner := cd.name }
-  | some (.lit v) => { default := v, factory := .missing, init := true, owner := owner.getD cd.name }
+  | some (.attrObj d f i) => { default := d, factory := f, init := i, owner := cd.name, prep := p, prepItem := q }
+  | some (.lit v) => { default := v, factory := .missing, init := true, owner := owner.getD cd.name,
+                       prep := p, prepItem := q }
   | none => { default := classGetattr cs cd.mro.tail a, factory := .missing, init := true,
-              owner := owner.getD cd.name }
+              owner := owner.getD cd.name, prep := p, prepItem := q }
 
 def dedupNames : List Name → List Name
   | [] => []
@@ -267,12 +316,28 @@ abbrev Res := St × Option Err
 
 def St.emit (s : St) (e : Ev) : St := { s with trace := s.trace ++ [e] }
 
+/-- `prepare_attr_value(attr_spec, self, v)` with `attr_spec = type(self).__spec_class__.attrs.get(a)`: the
+preparer of the INSTANCE's metadata, then (collection attributes) the item preparer on every item. -/
+def prepareVal (env : Env) (im : Meta) (a : Name) (v : Val) : Val :=
+  match assoc im.attrs a with
+  | none => v
+  | some sp => applyItemPrep (env.ty a) sp.prepItem (applyPrep sp.prep v)
+
+/-- What the collection preparation of a `List[int]` attribute raises for a value that is not a list:
+a non-iterable gives `TypeError`, a (non-empty) string is iterated and its first character rejected
+(`ValueError`). -/
+def collReject : Val → Option Err
+  | .list _ => none
+  | .str _ => some .valueError
+  | _ => some .typeError
+
 /-- `self.<a> = v` through the generated `__setattr__`: prepare, enter `mutate_attr`
 (no-op on MISSING), type check, write. -/
-def setAttr (env : Env) (s : St) (a : Name) (v : Val) : Res :=
-  let v' := applyPrep (env.prep a) v
+def setAttr (env : Env) (im : Meta) (s : St) (a : Name) (v : Val) : Res :=
+  let v' := prepareVal env im a v
   if v' = .missing then (s, none)
   else if env.ty a = .dict then (s, some .typeError)   -- collection preparation rejects it before `mutate_attr`
+  else if env.ty a = .ints && (collReject v').isSome then (s, (collReject v'))
   else
     let s' := s.emit (.set a v')
     if conforms (env.ty a) v' then ({ s' with fields := dictSet s'.fields a v' }, none)
@@ -335,7 +400,7 @@ def ownLoop (env : Env) (im : Meta) (mroC : List Cls) (k : Cls) (kw : Kw) :
       let v := kwGet kw a
       let v := if v = .missing then lookupDefault env.classes sp a mroC else v
       if v = .missing then ownLoop env im mroC k kw r s
-      else match setAttr env s a v with
+      else match setAttr env im s a v with
         | (s', none) => ownLoop env im mroC k kw r s'
         | e => e
 
@@ -359,19 +424,19 @@ def bindHand (params : List HandParam) (pos : List Val) (kw : Kw) : Except Err (
         | none, none => .error .typeError
     go params pos
 
-def handBody (env : Env) : List (HandParam × Val) → St → Res
+def handBody (env : Env) (im : Meta) : List (HandParam × Val) → St → Res
   | [], s => (s, none)
   | (p, v) :: r, s =>
     match applyF p.f v with
     | .error e => (s, some e)
-    | .ok w => match setAttr env s p.name w with
-      | (s', none) => handBody env r s'
+    | .ok w => match setAttr env im s p.name w with
+      | (s', none) => handBody env im r s'
       | e => e
 
-def callHand (env : Env) (k : Cls) (params : List HandParam) (pos : List Val) (kw : Kw) (s : St) : Res :=
+def callHand (env : Env) (im : Meta) (k : Cls) (params : List HandParam) (pos : List Val) (kw : Kw) (s : St) : Res :=
   match bindHand params pos kw with
   | .error e => (s, some e)
-  | .ok bound => handBody env bound (s.emit (.ctor k))
+  | .ok bound => handBody env im bound (s.emit (.ctor k))
 
 /-- First class of an MRO that is decorated (the class whose `__init__` is found). -/
 def firstSpecCls (cs : List ClsInfo) : List Cls → Option ClsInfo
@@ -386,7 +451,7 @@ def callParent (env : Env) (im : Meta) (mroC : List Cls) (p : Cls) (pk : Kw) (s 
   | none => (s, none)        -- `object.__init__` (not reached: the parent has metadata)
   | some i =>
     match i.cdef.hand with
-    | some params => callHand env i.cdef.name params [] pk s
+    | some params => callHand env im i.cdef.name params [] pk s
     | none =>
       match i.«meta» with
       | none => (s, none)
@@ -466,12 +531,12 @@ def construct (env : Env) (c : Cls) (pos : List Val) (kw : Kw) : Res :=
   match firstSpecCls env.classes mroC with
   | none => (St.empty, some .typeError)          -- no spec class in the MRO: outside the model
   | some k =>
-    match k.cdef.hand with
-    | some params => callHand env k.cdef.name params pos kw St.empty
-    | none =>
-      match k.«meta» with
-      | none => (St.empty, some .typeError)
-      | some im =>
+    match k.«meta» with
+    | none => (St.empty, some .typeError)
+    | some im =>
+      match k.cdef.hand with
+      | some params => callHand env im k.cdef.name params pos kw St.empty
+      | none =>
         match bindGenerated im pos kw with
         | .error e => (St.empty, some e)
         | .ok kwargs => initOwner env im mroC k kwargs St.empty
@@ -510,6 +575,27 @@ def declares (cs : List ClsInfo) (k : Cls) (a : Name) : Bool :=
         (d.ann || (match d.body with | some (.attrObj _ _ _) => true | _ => false))) ||
       i.cdef.ovfArg == some (some a))
   | none => false
+
+/-- Class `k` is decorated and its body mentions `a` — declares it (`declares`) or merely assigns a class-level
+value: bootstrapping `k` builds a NEW `Attr` for `a` (and looks the preparers up again, on `k`). A decorated
+class whose body does not mention `a` hands the inherited `Attr` down as it is. -/
+def rebuilds (cs : List ClsInfo) (k : Cls) (a : Name) : Bool :=
+  declares cs k a ||
+    (match findCls cs k with
+     | some i => i.cdef.spec && (assoc (bodyDict i.cdef) a).isSome
+     | none => false)
+
+/-- SPEC of the preparer in force for attribute `a` on instances of a class with MRO `mroC`: the
+`_prepare_<a>` visible (by attribute lookup over the declared bodies) from the nearest class along the MRO
+that (re)builds the attribute; 0 = none. `sel` = `(·.preps)` / `(·.itemPreps)`. -/
+def declaredPrep (cs : List ClsInfo) (sel : ClassDef → List (Name × Nat)) (mroC : List Cls) (a : Name) : Nat :=
+  match mroC.find? (fun kk => rebuilds cs kk a) with
+  | some b => prepAlong cs sel (mroOf cs b) a
+  | none => 0
+
+/-- STRICT clause about preparers: the instance metadata's `Attr` carries the declared preparers. -/
+def wfPrep (cs : List ClsInfo) (mroC : List Cls) (p : Name × AttrSpec) : Bool :=
+  p.2.prep == declaredPrep cs (·.preps) mroC p.1 && p.2.prepItem == declaredPrep cs (·.itemPreps) mroC p.1
 
 /-- When the default lookup reaches the owner, the Attr carries what the owner's body declares, or (for an
 annotation-only declaration) the nearest default of the rest of the MRO. -/
@@ -577,7 +663,9 @@ def wfCallG (strictAttr strictKey : Bool) (env : Env) (c : Cls) : Bool :=
          | some sp => sp.init && im.ovf != some kn &&
                       -- STRICT (what the open finding KF-C09-plain-subclass-key-default violates)
                       (!strictKey || (sp.hasDefault == (nearestDefault cs mroC kn != .missing)))
-         | none => false)
+         | none => false) &&
+      -- STRICT: every init-enabled attribute is prepared by the preparers the hierarchy declares for it
+      (!strictAttr || im.attrs.all (fun p => !p.2.init || wfPrep cs mroC p))
 
 /-- Full well-formedness (hypothesis of the `_partial` theorems). -/
 def wfCall (env : Env) (c : Cls) : Bool := wfCallG true true env c
